@@ -530,10 +530,11 @@ func runItem(b *batch, from int, prog *progress, itemIdx int, touchEvery int) *i
 			dd := d
 			res.Sample = &dd
 		}
-		attrs := fmt.Sprintf("pages=%s:mem=%s:%s", pagesClass(in.m.size/wasmPage), memKindNames[b.Kind], s.Op.Class)
+		attrs := fmt.Sprintf("pages=%s:mem=%s", pagesClass(in.m.size/wasmPage), memKindNames[b.Kind])
 		if exp.AccRan && exp.EA+s.width() == 1<<32 {
 			attrs += ":end==2^32"
 		}
+		attrs += ":" + s.Op.Class
 		viol := func(class, what string) {
 			res.violation(b.Engine+":"+class+":"+attrs, d.String()+": "+what, d)
 		}
